@@ -301,6 +301,18 @@ func (l *localResult) violate(kind string, in input, r reasons, detail string) {
 		kind, detail, in.Caller.NoAuth, in.Caller.Roles, in.Caller.User, in.Caller.IsSystem, in.Name, in.Visibility, in.Owner, in.RoleGrants, in.UserGrants, in.Action), Replay: in})
 }
 
+func observed(allowed, denied int64, allAllowed, allDenied, mixed string) string {
+	switch {
+	case allowed == 0 && denied == 0:
+		return "not exercised in this tier"
+	case denied == 0:
+		return allAllowed
+	case allowed == 0:
+		return allDenied
+	}
+	return mixed
+}
+
 func visLabel(v string) string {
 	if v == "" {
 		return "unset"
@@ -539,11 +551,12 @@ func main() {
 	run.Set("unjudged_unset_visibility", map[string]any{
 		"what":    "visibility \"\" (unset), action read/list, caller has no admin/owner/grant ground: the statement only speaks of 'public' resources; docs/RBAC_ENTITLEMENTS.md lists public/private/system and says nothing about an unset value. Reported, not judged.",
 		"allowed": tot.unsetVisAllowed, "denied": tot.unsetVisDenied,
-		"observed": "the implementation treats unset visibility like public (read and list open to everyone, including callers without any identity)",
+		"observed": observed(tot.unsetVisAllowed, tot.unsetVisDenied, "the implementation treats unset visibility like public (read and list open to everyone, including callers without any identity)", "the implementation treats unset visibility like private", "mixed decisions"),
 	})
 	run.Set("unjudged_empty_user_id_grant", map[string]any{
 		"what":    "user grant stored under the empty user id, matched by a caller without user id (thorough tier only). Not addressed by the statement. Reported, not judged.",
 		"allowed": tot.anonGrantAllowed, "denied": tot.anonGrantDenied,
+		"observed": observed(tot.anonGrantAllowed, tot.anonGrantDenied, "the implementation honours a grant stored under the empty user id for every caller without user id (including a context without any auth)", "the implementation ignores grants stored under the empty user id", "mixed decisions"),
 	})
 	run.Set("rule", "full cartesian product callers(ordered role lists x user x IsSystem, plus a context without auth) x resource names x visibility x owner x role-grant maps x user-grant maps x 5 actions; every tuple is distinct by construction and is evaluated on CheckPolicy, EnforcePolicy, CanPerformAction, Authorize and ResolveRBACMap; non-trivial = tuples where at least one allow ground (admin, owner, role grant, user grant, public read/list, system caller on system visibility) is present or the statement leaves the decision open; decision_classes_reached = distinct (core, visibility, system caller, admin, owner, role grant, user grant, action) abstractions reached")
 	run.Assumption("role names, user ids, resource names, visibilities and grant action sets are limited to the stated small domain (coverage.domain)")
